@@ -10,6 +10,7 @@ usage: cache_child.py <repo_src> <fasta>
 import json, os, sys
 
 src, fasta = sys.argv[1], sys.argv[2]
+FLUSH_EACH = (len(sys.argv) < 4 or sys.argv[3] != "buffered")   # "buffered": data reaches the file only on close(), like a small real write
 sys.path.insert(0, src)
 import logging
 logging.disable(logging.CRITICAL)
@@ -56,8 +57,9 @@ class WFile:
     def write(self, data):
         gate("write " + self.w)
         n = self.fh.write(data)
-        self.fh.flush()
-        stamp(self.path)
+        if FLUSH_EACH:
+            self.fh.flush()
+            stamp(self.path)
         return n
 
     def close(self):
